@@ -80,6 +80,10 @@ var serialOps = map[string]bool{"handle": true}
 // concurrent map writes) kills only the worker; the case is then recorded as a crash.
 var isolatedOps = map[string]bool{}
 
+// freshOps additionally get a worker process of their own, started for the case and stopped after it:
+// what the case does is the first use of the library in that process (lazily initialised package state)
+var freshOps = map[string]bool{}
+
 func main() {
 	tier := flag.String("tier", "quick", "quick|thorough")
 	seed := flag.Int64("seed", 1, "PRNG seed")
@@ -375,6 +379,11 @@ func runIsolated(cases []Case, idx []int) {
 			defer wg.Done()
 			var wp *workerProc
 			for i := range ch {
+				if wp != nil && freshOps[cases[i].Op] {
+					wp.stdin.Close()
+					wp.cmd.Wait()
+					wp = nil
+				}
 				if wp == nil {
 					var err error
 					wp, err = startWorker()
@@ -404,6 +413,11 @@ func runIsolated(cases []Case, idx []int) {
 					cases[i].Impl, cases[i].Oracle, cases[i].Soft, cases[i].Extra = res.Impl, res.Oracle, res.Soft, res.Extra
 					if res.Args != nil {
 						cases[i].Args = res.Args
+					}
+					if freshOps[cases[i].Op] {
+						wp.stdin.Close()
+						wp.cmd.Wait()
+						wp = nil
 					}
 					continue
 				}
